@@ -33,7 +33,7 @@ PROBES = [
     "probe.read_spans_refill", "probe.chunk_inside_read", "probe.read_at_eof", "probe.multibyte_split",
     "probe.line_spans_chunk", "probe.bufwriter_overflow", "probe.big_write_bypass", "probe.kill_fired",
     "probe.kill_after_flush", "probe.append_existing", "probe.x_exists", "probe.a_missing", "probe.exit_unflushed",
-    "probe.readback", "probe.stdin_and_file", "probe.two_handles_one_file",
+    "probe.readback", "probe.stdin_and_file", "probe.two_handles_one_file", "probe.two_appenders_one_file",
 ]
 
 HUGE = 1 << 40
@@ -213,9 +213,91 @@ def gen_write(rng, tier):
     return model
 
 
+def gen_append2(rng, tier):
+    """Several append-mode handles on ONE file.  Appending is positional only at flush time (O_APPEND), so the
+    file must be the flushed chunks in flush order.  Writes stay far below any buffer capacity and every
+    handle is flushed explicitly before the end, so no implementation detail of the buffering is assumed."""
+    nh = rng.range(2, 3)
+    initial = None
+    if rng.chance(60):
+        initial = {"t": "text", "n": rng.choice([0, 1, 7, 100, 8192]), "seed": rng.u64() >> 16}
+    ops = []
+    for _ in range(rng.range(3, 14)):
+        h = rng.below(nh)
+        if rng.chance(65):
+            ops.append({"h": h, "op": "write", "data": {"t": "str", "unit": rng.choice(["a", "bb", "line\n", "x-", "0123456789"]), "rep": rng.range(1, 12)}})
+        else:
+            ops.append({"h": h, "op": "flush"})
+    order = list(range(nh))
+    rng.shuffle(order)
+    for h in order:
+        ops.append({"h": h, "op": "flush"})
+    return {"pop": "append2", "nh": nh, "initial": initial, "ops": ops, "rseed": rng.u64() >> 8}
+
+
+def render_append2(model):
+    lines = []
+    files = {}
+    if model["initial"] is not None:
+        files["d/log"] = content.expand(model["initial"])
+    for i in range(model["nh"]):
+        lines.append('let h%d = open("d/log", "a");' % i)
+        lines.append(script.obs_handle(i, "h%d" % i))
+    k = model["nh"]
+    for op in model["ops"]:
+        lines.append("time();")
+        if op["op"] == "write":
+            lines.append("let r = write(h%d, %s); %s" % (op["h"], _wdata_expr(op["data"], k, []), script.obs_val(k)))
+        else:
+            lines.append("let r = flush(h%d); %s" % (op["h"], script.obs_val(k)))
+        k += 1
+    lines.append('eprintln("#9999 V DONE");')
+    return {"argv": ["s.p2"], "script": "\n".join(lines) + "\n", "files": files, "dirs": ["d"], "stdin": None,
+            "plan": {"root": "d/", "paths": [[0, "r", "d/log"]], "rseed": model["rseed"], "faults": []}}
+
+
+def check_append2(model, res):
+    viols = []
+    stats = {"probe.two_appenders_one_file": 1}
+    obs, other = _common(model, res, viols)
+    if other:
+        viols.append(_viol("append2:process:stderr", "unexpected stderr lines: %r" % other[:3]))
+    expect = content.expand(model["initial"]) if model["initial"] is not None else b""
+    pending = [b""] * model["nh"]
+    for i in range(model["nh"]):
+        o = obs.get(i)
+        if not o or o[0][0] != "V":
+            viols.append(_viol("append2:open:error", "open(\"d/log\", \"a\") #%d failed: %r" % (i, o)))
+            return {"violations": viols, "stats": stats, "hist": "append2|openfail", "nontrivial": True, "ops": len(model["ops"])}
+    k = model["nh"]
+    for op in model["ops"]:
+        o = obs.get(k)
+        if op["op"] == "write":
+            d = wdata_bytes(op["data"])
+            pending[op["h"]] += d
+            if not o or o[0] != ("V", str(len(d))):
+                viols.append(_viol("append2:write:result", "op %d: write of %d bytes returned %r" % (k, len(d), o)))
+        else:
+            expect += pending[op["h"]]
+            pending[op["h"]] = b""
+            if not o or o[0] != ("V", "null"):
+                viols.append(_viol("append2:flush:result", "op %d: flush returned %r" % (k, o)))
+        k += 1
+    got = res.files.get("d/log")
+    if got != expect:
+        viols.append(_viol("append2:file:%s" % (_diff_class(expect, got or b"") or "wrong"),
+                           "%d append-mode handles on one file: expected %d bytes (the flushed chunks in flush order), file has %s; expected %s got %s" % (
+                               model["nh"], len(expect), "nothing" if got is None else "%d bytes" % len(got), _short(expect, 40), _short(got or b"", 40))))
+    hist = "append2|" + "".join("%s%d" % (o["op"][0], o["h"]) for o in model["ops"])
+    return {"violations": viols, "stats": stats, "hist": hist, "nontrivial": True, "ops": len(model["ops"]) + model["nh"]}
+
+
 def generate(rng, tier, idx):
-    if rng.chance(55):
+    k = rng.weighted([(52, "read"), (40, "write"), (8, "append2")])
+    if k == "read":
         return gen_read(rng, tier)
+    if k == "append2":
+        return gen_append2(rng, tier)
     return gen_write(rng, tier)
 
 
@@ -225,6 +307,8 @@ def generate(rng, tier, idx):
 def render(model):
     if model["pop"] == "read":
         return render_read(model)
+    if model["pop"] == "append2":
+        return render_append2(model)
     return render_write(model)
 
 
@@ -378,6 +462,8 @@ def check(model, results):
     res = results[0]
     if model["pop"] == "read":
         return check_read(model, res)
+    if model["pop"] == "append2":
+        return check_append2(model, res)
     return check_write(model, res)
 
 
@@ -714,6 +800,13 @@ def check_write(model, res):
 
 def shrink(model):
     m = model
+    if m["pop"] == "append2":
+        n = len(m["ops"]) - m["nh"]   # the closing flush of every handle stays
+        for i in range(n):
+            yield dict(m, ops=m["ops"][:i] + m["ops"][i + 1:])
+        if m["initial"] is not None:
+            yield dict(m, initial=None)
+        return
     # fewer operations
     n = len(m["ops"])
     if n > 1:
@@ -795,6 +888,8 @@ def _fix(c):
 def sample(model, results):
     res = results[0]
     conc = render(model)
+    if model["pop"] == "append2":
+        return {"population": "append2", "model": model, "script_head": conc["script"][:1200], "status": list(res.status)}
     return {
         "population": model["pop"],
         "model": model,
